@@ -1204,6 +1204,14 @@ func (prop) Generate(rng *rand.Rand, tier string) []corr.Case {
 		}
 		cases = append(cases, genFull(rng, variant, missing, i%2 == 1))
 	}
+	// batches with repeated keys through UniqueAndSort and Update (batch.go); appended last as well
+	nDup := 12
+	if tier == "thorough" {
+		nDup = 300
+	}
+	for i := 0; i < nDup; i++ {
+		cases = append(cases, genDupBatches(rng, 12+rng.Intn(14)))
+	}
 	return cases
 }
 
@@ -1405,6 +1413,8 @@ func (r *runner) step(op string) string {
 			res += "/1:" + strconv.FormatBool(ok && err == nil)
 		}
 		return res
+	case "uniq", "nupdate":
+		return r.stepBatch(w, op)
 	}
 	return "bad-op"
 }
@@ -1617,8 +1627,15 @@ func (prop) Classify(c corr.Case, out []string) string {
 			if len(w) > 2 && w[2] != "8" {
 				feats["sth"+w[2]] = true
 			}
-		case "update":
+		case "uniq":
+			if out[i] != "panic" && strings.Count(out[i], ",") < strings.Count(w[1], ",") {
+				feats["uniq-folded"] = true
+			}
+		case "update", "nupdate":
 			roots[out[i]] = true
+			if w[0] == "nupdate" {
+				feats["nupdate"] = true
+			}
 			if strings.Contains(w[1], "=-") {
 				feats["del"] = true
 			}
